@@ -18,6 +18,9 @@
 #include <cstdlib>
 #endif
 #include <algorithm>
+#if defined(__unix__) || defined(__APPLE__)
+#include <sys/resource.h>
+#endif
 #include <deque>
 #include <chrono>
 #include <cmath>
@@ -580,6 +583,16 @@ namespace bloch::runtime {
                              "RuntimeEvaluator is single-use; construct a new instance per run");
         }
         m_executed = true;
+        {
+            char base = 0;
+            m_stackBase = &base;
+            m_stackBudget = 6u * 1024u * 1024u;
+#if defined(__unix__) || defined(__APPLE__)
+            struct rlimit lim;
+            if (getrlimit(RLIMIT_STACK, &lim) == 0 && lim.rlim_cur != RLIM_INFINITY)
+                m_stackBudget = static_cast<size_t>(lim.rlim_cur) / 4u * 3u;
+#endif
+        }
         m_functions.clear();
         m_env.clear();
         m_frameStart = 0;
@@ -1895,6 +1908,7 @@ namespace bloch::runtime {
                                                const std::vector<Value>& args) {
         if (!cls)
             return;
+        checkStackBudget(ctor ? ctor->line : 0, ctor ? ctor->column : 0);
 
         if (kTraceConstructors) {
             std::cerr << "[ctor] " << cls->name << " args=" << args.size() << std::endl;
@@ -2049,6 +2063,7 @@ namespace bloch::runtime {
                                        const std::vector<Value>& args) {
         if (!method || !method->decl)
             return {};
+        checkStackBudget(method->decl->line, method->decl->column);
         auto prevClass = m_currentClassCtx;
         bool prevStatic = m_inStaticContext;
         bool prevCtor = m_inConstructor;
@@ -2096,7 +2111,23 @@ namespace bloch::runtime {
         return ret;
     }
 
+    // Calls recurse on the native stack (several KiB per Bloch frame). Before a new frame is
+    // entered the distance from the start of the run is compared with three quarters of the
+    // stack the process was given, so that runaway (or merely deep) recursion ends in a runtime
+    // error instead of SIGSEGV.
+    void RuntimeEvaluator::checkStackBudget(int line, int column) {
+        char probe = 0;
+        const char* here = &probe;
+        size_t used = m_stackBase > here ? static_cast<size_t>(m_stackBase - here)
+                                         : static_cast<size_t>(here - m_stackBase);
+        if (m_stackBase && used > m_stackBudget) {
+            throw BlochError(ErrorCategory::Runtime, line, column,
+                             "call stack exhausted: recursion is too deep");
+        }
+    }
+
     Value RuntimeEvaluator::call(FunctionDeclaration* fn, const std::vector<Value>& args) {
+        checkStackBudget(fn ? fn->line : 0, fn ? fn->column : 0);
         // Bind parameters, run the body until a return is hit, then unwind.
         RuntimeClass* prevClassCtx = m_currentClassCtx;
         bool prevStaticCtx = m_inStaticContext;
